@@ -267,6 +267,7 @@ def gen_history(rng):
         elif op == "open":
             p = rng.below(NP)
             kind = rng.weighted([("file-in", 4), ("file-out", 2), ("fd-in", 2), ("fd-in-noclose", 1), ("fd-shared", 2)])
+            many = 0
             if kind == "file-in":
                 src = '(vector-set! P %d (open-input-file "%s")) #t' % (p, README)
             elif kind == "file-out":
@@ -276,9 +277,15 @@ def gen_history(rng):
             elif kind == "fd-in-noclose":
                 src = "(vector-set! P %d (open-input-file-descriptor (sim-open-fd #t))) #t" % p
             else:
-                src = ("(let ((f (sim-open-fd #f))) (vector-set! P %d (open-input-file-descriptor f)) (vector-set! P %d (open-input-file-descriptor f))) #t"
-                       % (p, (p + 1) % NP))
+                # two held ports on one fileno; sometimes hundreds more ports on the same fileno that are dropped at once (a per-request port on a
+                # long-lived descriptor): the descriptor belongs to the held ones whatever the number of sharers was
+                many = rng.choice([0, 0, 0, 253, 254, 255, 256, 300, 600])
+                extra = " (do ((i 0 (+ i 1))) ((= i %d)) (open-input-file-descriptor f))" % many if many else ""
+                src = ("(let ((f (sim-open-fd #f))) (vector-set! P %d (open-input-file-descriptor f)) (vector-set! P %d (open-input-file-descriptor f))%s) #t"
+                       % (p, (p + 1) % NP, extra))
             ops.append({"src": src, "kind": "open", "slot": p, "pkind": kind})
+            if kind == "fd-shared" and many:
+                ops[-1]["many"] = many
         elif op == "read":
             ops.append({"src": "(let ((p (vector-ref P %d))) (if (and p (input-port? p) (input-port-open? p)) (let ((c (read-char p))) (or (char? c) (eof-object? c))) 'skip))" % rng.below(NP), "kind": "read"})
         elif op == "close":
@@ -453,7 +460,8 @@ def judge(case, res):
             slots = [o["slot"]] + ([(o["slot"] + 1) % NP] if o["pkind"] == "fd-shared" else [])
             for sl in slots:
                 port_drop(sl, opi)
-            descs[did] = {"live": len(slots), "orphan_ops": [], "noclose": o["pkind"] == "fd-in-noclose", "released": False}
+            # (the extra ports of a many-sharers open are dropped inside the operation itself: they own the descriptor until collected)
+            descs[did] = {"live": len(slots), "orphan_ops": [opi] if o.get("many") else [], "noclose": o["pkind"] == "fd-in-noclose", "released": False}
             for sl in slots:
                 ports[sl] = {"open": True, "desc": did}
         elif kind == "read":
